@@ -268,6 +268,10 @@ func c12Forms(sc *c07Schema) []c12Form {
 		{"subquery-dual-star-item", "(SELECT *, 1 AS one FROM dual)", "any"},
 		{"subquery-dual-cmp-star", "(SELECT " + r(k) + " = 1 AS f, * FROM dual)", "any"},
 		{"subquery-dual-nested", "(SELECT (SELECT * FROM dual) AS inner1, 2 AS two FROM dual)", "any"},
+		{"subquery-derived-dual-star", "(SELECT * FROM (SELECT * FROM dual) x)", "any"},
+		{"subquery-derived-dual-alias", "(SELECT x FROM (SELECT * FROM dual) x)", "any"},
+		{"subquery-derived-dual-star-item", "(SELECT x, 1 AS one FROM (SELECT *, 2 AS two FROM dual) x)", "any"},
+		{"subquery-join-dual-star", "(SELECT * FROM (SELECT * FROM dual) x JOIN (SELECT * FROM dual) y ON 1 = 1)", "any"},
 		{"subquery-where", "(SELECT " + p + " AS pv FROM " + r(items) + " WHERE " + p + " > 1)", "any"},
 		{"async-call", "ASYNC.vf_id(" + r(v) + ")", "num"},
 		{"once-call", "ONCE.vf_id(7)", "num"},
